@@ -712,6 +712,15 @@ func (r *Remote) Send(m refwire.Msg) error {
 // answer removes an outstanding request (we answered or rejected it); any block of the same
 // (index, begin) counts, whatever the length we put in our answer.
 func (r *Remote) answer(k BlockKey) {
+	// storrent maps a Piece to the 16 KiB slot its begin falls into: data that starts a byte or two into a
+	// requested block is, for storrent, the (unusable) answer to that block
+	slot := k.Begin / fixture.Block
+	for o := range r.out {
+		if o.Index == k.Index && o.Begin/fixture.Block == slot && o.Begin != k.Begin {
+			k.Begin = o.Begin
+			break
+		}
+	}
 	for o := range r.out {
 		if o.Index == k.Index && o.Begin == k.Begin {
 			r.outP[o] = true
